@@ -63,6 +63,8 @@ Section decl2.
     | SigUpdateName x _ => is_Some (sname s !! x)
     | MuxInsert u os _ _ => is_Some (xshape s !! u) ∧ ∀ x, os = Some x → is_Some (sname s !! x)
     | MuxRemove u _ | MuxClearGroup u _ | MuxClearAll u => is_Some (xshape s !! u)
+    | EnumClone e => is_Some (enums (base (l3 s)) !! e)
+    | EvalClone v => is_Some (evals (base (l3 s)) !! v)
     end.
 
   Definition viol2 (o : op2) (cw : cause * wrap) : Prop :=
